@@ -29,6 +29,12 @@ fn main() {
     let rounds: usize = a[2].parse().unwrap();
     let corpus = eng::Corpus::load();
     let mut utts: Vec<Vec<String>> = vec![corpus.lines[0..3].to_vec(), corpus.lines[40..42].to_vec(), corpus.lines[100..104].to_vec(), vec![]];
+    // a silence-and-pause-only utterance (no frame eligible for global variance) and a single label
+    let sil: Vec<String> = corpus.lines.iter().filter(|l| l.contains("-sil+") || l.contains("-pau+")).take(3).cloned().collect();
+    if sil.len() == 3 {
+        utts.push(sil);
+    }
+    utts.push(corpus.lines[300..301].to_vec());
     if corpus.extras.len() >= 8 {
         utts.push(corpus.extras[0..4].to_vec());
         utts.push(corpus.extras[8..corpus.extras.len().min(12)].to_vec());
